@@ -291,7 +291,7 @@ def run(c, chk):
     # R10.11: a removal or update that names a title the option does not have is refused: titles are compared whole (rule R9.18 of C09)
     from . import c09 as _c09w
     _c09w.whole_comparisons(c, chk, 'R10.11', 'a call that names a title no section has is refused and changes nothing: titles and names are compared as whole strings (rule R9.18 of C09)',
-                            consequence=' - a call with a title that is only the beginning of an existing one is not refused, it changes that section')
+                            consequence=' - a call with a title that is only the beginning of an existing one is not refused, it changes that section', exclude_funcs=('cfg_free',))
     sub = report.SubCheck(chk, 'R10.6', 'C11', only=('R11.2', 'R11.5', 'R11.7'))
     c11.run(c, sub)
     sub.done('unresolvable paths')
